@@ -398,5 +398,149 @@ theorem sym_roundtrip (cfg : Cfg) (as : List AddArgs) (hf : Fits as) (hnul : ∀
     rw [getSymbol_decoded wf, hcfg, hcount]
     simp only [Nat.not_lt.mpr hi, if_false]
 
+
+/-- **lookup_value** : `get_symbol(value, …)` on any well-formed table returns the name and
+    attributes of the *first* entry whose `st_value` (in the class width) equals `value`, and fails
+    (out-parameters untouched) when there is none.  Independent of any hash section. -/
+theorem lookup_value {t : SymTab} {symB strB : Bytes} (h : Wf t symB strB) (value : BitVec 64) (str : Bytes)
+    (a : Attrs) :
+    t.getByValue value str a = .ok (match Spec.lookupValue (valuesOf t.cfg symB) value.toNat with
+      | none => (false, str, a)
+      | some j => (true, (nameAt t.cfg symB strB j).getD str,
+                   { attrsOfRec (recAt t.cfg symB j) with value := a.value })) := by
+  have hcnt : countOf t.cfg.cls symB ≤ symB.length := Nat.div_le_self _ _
+  have hlt := t.sym.size.isLt
+  have hsz := h.sym.size
+  have hcN : (BitVec.ofNat 64 (countOf t.cfg.cls symB)).toNat = countOf t.cfg.cls symB := by
+    simp only [BitVec.toNat_ofNat, Nat.reducePow] at *; omega
+  obtain ⟨r, e, p⟩ := searchGo_spec h value (countOf t.cfg.cls symB) 0 (by omega)
+  unfold getByValue
+  rw [symbolsNum_eq h]
+  simp only [bind, Except.bind, hcN]
+  have e' : t.searchGo value (countOf t.cfg.cls symB) 0 = .ok r := e
+  rw [e']
+  cases r with
+  | none =>
+    have : Spec.lookupValue (valuesOf t.cfg symB) value.toNat = none := by
+      apply Spec.firstIdx_eq_none
+      intro j b hb
+      rw [valuesOf_get] at hb
+      split at hb
+      · rename_i hj; cases hb
+        simpa using p j (Nat.zero_le _) hj
+      · cases hb
+    simp only [this, pure, Except.pure]
+  | some idx =>
+    obtain ⟨j, e1, _, e3, e4, e5⟩ := p
+    have : Spec.lookupValue (valuesOf t.cfg symB) value.toNat = some j := by
+      apply Spec.firstIdx_eq_some (a := (recAt t.cfg symB j).value)
+      · rw [valuesOf_get]; simp [e3]
+      · simpa using e4
+      · intro j' h1 b hb
+        rw [valuesOf_get] at hb
+        have : j' < countOf t.cfg.cls symB := by omega
+        simp only [this, if_true, Option.some.injEq] at hb
+        subst hb
+        simpa using e5 j' (Nat.zero_le _) h1
+    have hjN : (BitVec.ofNat 64 j).toNat = j := by
+      simp only [BitVec.toNat_ofNat, Nat.reducePow] at *; omega
+    simp only [this, e1, getSymbol_decoded h, hjN, e3, if_true, pure, Except.pure]
+
+
+/-- **lookup_name** : on any well-formed table with valid name offsets, accompanied by *any* hash
+    section (or none): if `get_symbol(name, …)` returns at all (i.e. the hash walk did not fault),
+    then it succeeds exactly when some entry carries the name, on success the attributes are those
+    of an entry with that name, and when the name is unique they are the linear scan's answer.
+    Uses only soundness of the two walks and the unconditional fallback. -/
+theorem lookup_name {t : SymTab} {symB strB : Bytes} (h : Wf t symB strB) (hv : ValidNames t.cfg symB strB)
+    (name : Bytes) (a : Attrs) (r : Bool) (a' : Attrs) (e : t.getByName name a = .ok (r, a')) :
+    (r = true ↔ (Spec.lookupName (namesOfTable t.cfg symB strB) name).isSome = true) ∧
+    (r = true → SymAt t.cfg symB strB name a') ∧
+    ((∀ j j', j < countOf t.cfg.cls symB → j' < countOf t.cfg.cls symB →
+        nameAt t.cfg symB strB j = some name → nameAt t.cfg symB strB j' = some name → j = j') →
+      r = true → ∃ j0, Spec.lookupName (namesOfTable t.cfg symB strB) name = some j0 ∧
+        a' = attrsOfRec (recAt t.cfg symB j0)) := by
+  have hcnt : countOf t.cfg.cls symB ≤ symB.length := Nat.div_le_self _ _
+  have hlt := t.sym.size.isLt
+  have hsz := h.sym.size
+  -- an entry carrying the name makes the reference scan succeed, at an entry carrying the name
+  have hpresent : ∀ j, j < countOf t.cfg.cls symB → nameAt t.cfg symB strB j = some name →
+      ∃ j0, Spec.lookupName (namesOfTable t.cfg symB strB) name = some j0 ∧ j0 < countOf t.cfg.cls symB ∧
+        nameAt t.cfg symB strB j0 = some name := by
+    intro j hj hn
+    cases hl : Spec.lookupName (namesOfTable t.cfg symB strB) name with
+    | none =>
+      have := Spec.firstIdx_none hl name (by
+        rw [List.mem_iff_getElem?]; exact ⟨j, by rw [namesOfTable_get]; simp [hj, hn]⟩)
+      simp at this
+    | some j0 =>
+      obtain ⟨x, hx, hp, _⟩ := Spec.firstIdx_some hl
+      rw [namesOfTable_get] at hx
+      split at hx
+      · rename_i hj0
+        obtain ⟨n, hn0⟩ := Option.isSome_iff_exists.mp (hv _ hj0)
+        simp only [hn0, Option.getD_some, Option.some.injEq] at hx
+        subst hx
+        exact ⟨j0, rfl, hj0, by rw [hn0]; simpa using hp⟩
+      · cases hx
+  unfold getByName at e
+  obtain ⟨r1, e1, e⟩ := bind_ok' e
+  by_cases hr1 : r1.1 = true
+  · -- found by a hash walk
+    rw [if_pos hr1] at e
+    simp only [pure, Except.pure, Except.ok.injEq] at e
+    have e1' : t.hashPhase name a = .ok (true, a') := by rw [e1, e]; rw [e] at hr1; simp at hr1; rw [hr1]
+    have hr : r = true := by rw [e] at hr1; exact hr1
+    obtain ⟨j, hj, hn, ha⟩ := hashPhase_sound h hv name a a' e1'
+    obtain ⟨j0, hl, hj0, hn0⟩ := hpresent j hj hn
+    refine ⟨⟨fun _ => by rw [hl]; rfl, fun _ => hr⟩, fun _ => ⟨j, hj, hn, ha⟩, fun hu _ => ⟨j0, hl, ?_⟩⟩
+    rw [hu j0 j hj0 hj hn0 hn]; exact ha
+  · -- fallback
+    rw [if_neg hr1] at e
+    obtain ⟨n, en, e⟩ := bind_ok' e
+    rw [symbolsNum_eq h] at en
+    cases en
+    have hcN : (BitVec.ofNat 64 (countOf t.cfg.cls symB)).toNat = countOf t.cfg.cls symB := by
+      simp only [BitVec.toNat_ofNat, Nat.reducePow] at *; omega
+    rw [hcN] at e
+    obtain ⟨r', a'', e', p1, p2⟩ := linearGo_spec h hv name (countOf t.cfg.cls symB) 0 r1.2 (by omega)
+    have e'' : t.linearGo name (countOf t.cfg.cls symB) 0 r1.2 = .ok (r', a'') := e'
+    rw [e''] at e
+    simp only [Except.ok.injEq, Prod.mk.injEq] at e
+    obtain ⟨rfl, rfl⟩ := e
+    cases hr : r' with
+    | false =>
+      have hnone : Spec.lookupName (namesOfTable t.cfg symB strB) name = none := by
+        apply Spec.firstIdx_eq_none
+        intro j b hb
+        rw [namesOfTable_get] at hb
+        split at hb
+        · rename_i hj
+          obtain ⟨n, hn0⟩ := Option.isSome_iff_exists.mp (hv _ hj)
+          simp only [hn0, Option.getD_some, Option.some.injEq] at hb
+          subst hb
+          have := p1 hr j (Nat.zero_le _) hj
+          rw [hn0] at this
+          simpa using this
+        · cases hb
+      refine ⟨⟨fun c => (by cases c), fun c => (by rw [hnone] at c; simp at c)⟩, fun c => (by cases c), fun _ c => by cases c⟩
+    | true =>
+      obtain ⟨j, _, hj, hn, ha, hmin⟩ := p2 hr
+      have hl : Spec.lookupName (namesOfTable t.cfg symB strB) name = some j := by
+        apply Spec.firstIdx_eq_some (a := name)
+        · rw [namesOfTable_get]; simp [hj, hn]
+        · simp
+        · intro j' h1 b hb
+          rw [namesOfTable_get] at hb
+          have hj' : j' < countOf t.cfg.cls symB := by omega
+          obtain ⟨n, hn0⟩ := Option.isSome_iff_exists.mp (hv _ hj')
+          simp only [hj', if_true, hn0, Option.getD_some, Option.some.injEq] at hb
+          subst hb
+          have := hmin j' (Nat.zero_le _) h1
+          rw [hn0] at this
+          simpa using this
+      exact ⟨⟨fun _ => by rw [hl]; rfl, fun _ => rfl⟩, fun _ => ⟨j, hj, hn, ha⟩, fun _ _ => ⟨j, hl, ha⟩⟩
+
+
 end C09
 end ElfioVerif
